@@ -177,6 +177,22 @@ def _vec_push(it, p, fid, fn, t, args):
     return UNIT
 
 
+def _vec_extend_slice(it, p, fid, fn, t, args):
+    """`v.extend_from_slice(&[a, b])` with this module's items (operands kept), not seqgen's (operands dropped)"""
+    cur, add = as_seq(it, p, args[0]), as_seq(it, p, args[1])
+    if cur is None or add is None:
+        return NotImplemented
+    seqgen._write_back(it, p, args[0], Seq(tuple(cur.items) + tuple(add.items)))
+    return UNIT
+
+
+def _poll_register(it, p, fid, fn, t, args):
+    """every poll is a different register: number them per path"""
+    n = sum(1 for e in p.events if e[0] == "poll")
+    p.events.append(("poll", n))
+    return Opaque("reg@%d" % n)
+
+
 def _vec_insert(it, p, fid, fn, t, args):
     cur = as_seq(it, p, args[0])
     idx = deref_all(it, p, args[1])
@@ -374,6 +390,8 @@ MODELS = {
     "compiler::ast::CompilationState::poll_loop_register": _fresh_loop_register,
     "compiler::ast::Compile::compile": _compile_model,
     "alloc::vec::Vec::push": _vec_push,
+    "alloc::vec::Vec::extend_from_slice": _vec_extend_slice,
+    "compiler::ast::CompilationState::poll_temporary_register": _poll_register,
     "alloc::vec::Vec::insert": _vec_insert,
     "alloc::vec::Vec::append": _vec_append,
     "alloc::vec::Vec::len": _vec_len,
